@@ -267,6 +267,29 @@ N6 == E("N6", "nest",
        dFD("maybe", <<>>, <<Skip(VB(FALSE))>>, <<dLf("id"), dInlD("Doc", <<Incl(VB(FALSE))>>, <<dLf("url")>>)>>)>>),
   <<<<>>>>)
 
+----------------------------------------------------------------------------
+\* validation-only seeds (C04): schema introspection selections inside ordinary operations (4.1, 4.2)
+V1 == E("V1", "pets",
+  dQ(<<dF("__schema", <<>>, <<dF("queryType", <<>>, <<dLf("name")>>),
+        dF("types", <<>>, <<dLf("name"), dLf("kind"),
+           dF("fields", <<dA("includeDeprecated", VB(TRUE))>>, <<dLf("name"), dF("type", <<>>, <<dLf("name"), dF("ofType", <<>>, <<dLf("name")>>)>>),
+                                                                 dF("args", <<>>, <<dLf("name"), dLf("defaultValue")>>)>>)>>),
+        dF("directives", <<>>, <<dLf("name"), dLf("locations"), dF("args", <<>>, <<dLf("name")>>), dLf("isRepeatable")>>)>>),
+       dLf("n")>>),
+  <<<<>>>>)
+V2 == E("V2", "args",
+  dDoc(dOp("query", "", <<dVar("n", NN(Ty("String")), Absent)>>,
+          <<dF("__type", <<dA("name", VVar("n"))>>, <<dLf("name"), dLf("kind"), dF("enumValues", <<>>, <<dLf("name"), dLf("isDeprecated")>>),
+                dF("inputFields", <<>>, <<dLf("name"), dF("type", <<>>, <<dLf("kind")>>)>>), dF("possibleTypes", <<>>, <<dLf("name")>>), dSpr("TF")>>),
+            dF("t", <<>>, <<dLf("i")>>)>>),
+       <<dFrag("TF", "__Type", <<dF("interfaces", <<>>, <<dLf("name")>>), dLf("specifiedByURL")>>)>>),
+  << <<V("n", VS("In"))>> >>)
+V3 == E("V3", "nest",
+  dQ(<<dF("doc", <<>>, <<dLf("id"), dLf("__typename")>>), dF("__type", <<dA("name", VS("Doc"))>>, <<dF("fields", <<>>, <<dLf("name")>>)>>),
+       dFA("s", "__schema", <<>>, <<dLf("description")>>)>>),
+  <<<<>>>>)
+CorpusV == <<V1, V2, V3>>
+
 Corpus == <<P1, P2, P3, P4, P5, P6, P7, P8, P9, P10, P11, P12, P13, P14, P15, P16, P17,
             A1, A2, A3, A4, A5, A6, A7, A8, A9, A10, A11, A12, A13,
             N1, N2, N3, N4, N5, N6>>
